@@ -75,6 +75,7 @@ Override(D, opts, s, real) ==
 RECURSIVE MergeCfg(_,_,_,_)
 MergeVal(D, opts, old, v) ==
   IF old = None THEN v
+  ELSE IF old.k = "nil" /\ v.k = "nil" THEN v            \* two nils are not containers: nil stays nil ("NilNilBecomesObject": repaired)
   ELSE IF ~ToCfgOk(old) \/ ~ToCfgOk(v) THEN v
   ELSE MergeCfg(D, opts, AsCfg(old), AsCfg(v))
 
